@@ -60,13 +60,17 @@ type Req struct {
 
 // Session is a case descriptor: one NETCONF session of N consecutive requests on one stream.
 type Session struct {
-	Kind    string     `json:"kind"`    // grid | random | sweep | big | hazard | noanswer (how it was generated)
-	Version string     `json:"version"` // 1.0 | 1.1
-	Via     string     `json:"via"`     // caps: server offers only that version; preferred: server offers both, client option selects
-	Force   bool       `json:"force"`   // options.WithNetconfForceSelfClosingTags
-	Header  bool       `json:"header"`  // false: options.WithNetconfExcludeHeader
-	Reqs    []Req      `json:"reqs"`
-	Seg     devsim.Seg `json:"seg"`
+	Kind    string `json:"kind"`    // grid | random | sweep | big | hazard | noanswer | caps (how it was generated)
+	Version string `json:"version"` // 1.0 | 1.1
+	Via     string `json:"via"`     // caps: server offers only that version; preferred: server offers both, client option selects
+	Force   bool   `json:"force"`   // options.WithNetconfForceSelfClosingTags
+	Header  bool   `json:"header"`  // false: options.WithNetconfExcludeHeader
+	// Caps are further capabilities of the server hello, as written on the wire (XML-escaped or not);
+	// WD names the with-defaults variant among them (evidence only).
+	Caps []string   `json:"caps,omitempty"`
+	WD   string     `json:"wd,omitempty"`
+	Reqs []Req      `json:"reqs"`
+	Seg  devsim.Seg `json:"seg"`
 	// Hazard names the rewrite hazard a "hazard" session's arguments carry (empty otherwise).
 	Hazard string `json:"hazard,omitempty"`
 }
